@@ -254,4 +254,84 @@ def hierTransform {α : Type} [LE α] [DecidableLE α] (n : Nat) (stop : Stop α
 
 end Hierarchical
 
+/-! ## 4. Text vocabularies: `CountVectorizer::fit` (learned word set under `max_features`) -/
+
+section Vocabulary
+variable {κ : Type} [DecidableEq κ] [LT κ] [DecidableLT κ]
+
+/-- `NGramList::ngram_items(index)`: the n-grams of lengths `lo..=hi` that start at `index`
+(`max == 1` short-cut included); `none` = the iterator stops (`index + min > len`). A word is its
+token list; `"a b"` is `[a, b]`. -/
+def ngramItems (toks : List Nat) (lo hi i : Nat) : Option (List (List Nat)) :=
+  if hi = 1 then some [(toks.drop i).take 1]
+  else if toks.length < i + lo then none
+  else some ((List.range (min (i + hi) toks.length - (i + lo) + 1)).map fun t => (toks.drop i).take (lo + t))
+
+/-- `NGramList::new(words, range).into_iter().flatten()`: all n-grams of a document in the order
+they are produced; iteration stops at the first start index without a full minimal n-gram -/
+def ngramsGo (toks : List Nat) (lo hi : Nat) : Nat → Nat → List (List Nat)
+  | 0, _ => []
+  | fuel + 1, i =>
+    if toks.length ≤ i then [] else
+    match ngramItems toks lo hi i with
+    | none => []
+    | some items => items ++ ngramsGo toks lo hi fuel (i + 1)
+
+def ngrams (toks : List Nat) (lo hi : Nat) : List (List Nat) := ngramsGo toks lo hi toks.length 0
+
+/-- one word of the loop in `read_document_into_vocabulary`: a known word gets its document
+frequency bumped, a new one is inserted with index `vocabulary.len()` and frequency 1.
+Entries are `(word, (insertion index, document frequency))`. -/
+def vocabStep (v : List (κ × Nat × Nat)) (w : κ) : List (κ × Nat × Nat) :=
+  if v.any (fun e => e.1 = w) then v.map (fun e => if e.1 = w then (e.1, e.2.1, e.2.2 + 1) else e)
+  else v ++ [(w, v.length, 1)]
+
+/-- `read_document_into_vocabulary`: `docSet` is the per-document `HashSet<String>` in the order
+its iterator yields it (arbitrary: the theorems quantify over every permutation) -/
+def readDocument (v : List (κ × Nat × Nat)) (docSet : List κ) : List (κ × Nat × Nat) :=
+  docSet.foldl vocabStep v
+
+/-- the loop over the documents in `fit` -/
+def buildVocabulary (docSets : List (List κ)) : List (κ × Nat × Nat) :=
+  docSets.foldl readDocument []
+
+/-- first half of `filter_vocabulary`: document-frequency window (absolute bounds) and stop words.
+(The code skips the window test when it is `0..=n_documents`; every frequency lies in it then.) -/
+def dfFilter (minAbs maxAbs : Nat) (stop : List κ) (v : List (κ × Nat × Nat)) : List (κ × Nat × Nat) :=
+  v.filter fun e => decide (minAbs ≤ e.2.2) && decide (e.2.2 ≤ maxAbs) && !(stop.contains e.1)
+
+/-- the order of the tuples `(Reverse(freq), Reverse(word), x)` that `itertools::sorted` sorts:
+higher document frequency first, ties by larger word first, then by insertion index -/
+def capLe (a b : κ × Nat × Nat) : Bool :=
+  decide (b.2.2 < a.2.2) ||
+    (decide (a.2.2 = b.2.2) && (decide (b.1 < a.1) || (!decide (a.1 < b.1) && decide (a.2.1 ≤ b.2.1))))
+
+/-- second half of `filter_vocabulary`: `sorted(..).take(max_features)` when a cap is set -/
+def capVocabulary (cap : Option Nat) (v : List (κ × Nat × Nat)) : List (κ × Nat × Nat) :=
+  match cap with
+  | none => v
+  | some k => (v.mergeSort capLe).take k
+
+/-- a cap whose tie-break is the insertion index (`(Reverse(freq), x, word)`): NOT what the code
+does; kept as the contrast for `cap_by_insertion_index_order_dependent` -/
+def capLeByIndex (a b : κ × Nat × Nat) : Bool :=
+  decide (b.2.2 < a.2.2) ||
+    (decide (a.2.2 = b.2.2) && (decide (a.2.1 < b.2.1) || (decide (a.2.1 = b.2.1) && !decide (b.1 < a.1))))
+
+def capVocabularyByIndex (cap : Option Nat) (v : List (κ × Nat × Nat)) : List (κ × Nat × Nat) :=
+  match cap with
+  | none => v
+  | some k => (v.mergeSort capLeByIndex).take k
+
+/-- what is observable of an entry: the word and its document frequency (the column index is
+re-assigned in hash order by `hashmap_to_vocabulary`; vocabularies are compared as maps) -/
+def wordDf (e : κ × Nat × Nat) : κ × Nat := (e.1, e.2.2)
+
+/-- `CountVectorizerValidParams::fit`: the learned vocabulary as (word, document frequency) -/
+def fitVocabulary (docSets : List (List κ)) (minAbs maxAbs : Nat) (stop : List κ) (cap : Option Nat) :
+    List (κ × Nat) :=
+  (capVocabulary cap (dfFilter minAbs maxAbs stop (buildVocabulary docSets))).map wordDf
+
+end Vocabulary
+
 end LinfaSpec.Determinism
